@@ -253,8 +253,18 @@ func c08Extend(c *fw.Ctx, idx int) {
 	want := start
 	sb := newSemBox(104)
 	anyc := false
+	// one history in six goes beyond four dimensions (then without XYM: what M means
+	// in a five-dimensional box is nobody's business)
+	wide := r.Chance(1, 6)
+	if wide && start == geom.XYM {
+		start = geom.XY
+		want = start
+	}
 	for i := range gs {
 		l := gen.StdLayouts[r.Intn(4)]
+		if wide {
+			l = []geom.Layout{geom.XY, geom.XYZ, geom.XYZM, geom.Layout(5), geom.Layout(6), geom.Layout(9)}[r.Intn(6)]
+		}
 		kind := gen.Kinds7[r.Intn(len(gen.Kinds7))]
 		gs[i] = gen.Shape(r, kind, l, gen.SmallInt, gen.ShapeOpts{CoordFn: c08NoNaN})
 		desc = append(desc, gs[i].String())
@@ -279,6 +289,9 @@ func c08Extend(c *fw.Ctx, idx int) {
 	}
 	if mix[geom.XYZ] && mix[geom.XYM] {
 		c.Count("extend_mixing_xyz_and_xym")
+	}
+	if wide {
+		c.Count("extend_histories_beyond_four_dimensions")
 	}
 	var lm []string
 	for _, g := range gs {
@@ -478,6 +491,24 @@ func c08Overlap(c *fw.Ctx, idx int) {
 		c.Fail("wrong-overlap", "Overlaps = %v / %v (swapped), closed-interval arithmetic says %v", got, gotSym, want)
 		return
 	}
+	// a box and itself: the same arithmetic on one operand (true unless a tested
+	// dimension is empty)
+	wantSelf := true
+	for i := 0; i < tl.Stride(); i++ {
+		if mn1[i] > mx1[i] {
+			wantSelf = false
+		}
+	}
+	var gotSelf bool
+	if c.Guard("panic", func() { gotSelf = b1.Overlaps(tl, b1) }) {
+		return
+	}
+	c.Eval(1)
+	c.Count("overlap_of_a_box_with_itself")
+	if gotSelf != wantSelf {
+		c.Fail("wrong-overlap", "Overlaps(%s, the box itself) = %v, closed-interval arithmetic says %v", tl, gotSelf, wantSelf)
+		return
+	}
 	// box / point
 	p := make([]float64, stride)
 	for i := range p {
@@ -567,7 +598,33 @@ func c08CollHistory(c *fw.Ctx, idx int) {
 				mn, gn = mn.Members[i], gn.Geom(i).(*geom.GeometryCollection)
 				path += fmt.Sprintf(".%d", i)
 			}
-			switch r.Intn(3) {
+			op := r.Intn(4)
+			if op == 3 {
+				// a member that is not a collection is exchanged (Swap) for a geometry of
+				// its type in another layout: the collection holds the same object, which
+				// now has other coordinates and another layout
+				var leaves []int
+				for i, m := range mn.Members {
+					if m.Kind != model.Collection {
+						leaves = append(leaves, i)
+					}
+				}
+				if len(leaves) == 0 {
+					op = 1
+				} else {
+					i := leaves[r.Intn(len(leaves))]
+					old := mn.Members[i]
+					np := gen.Shape(r, old.Kind, gen.StdLayouts[r.Intn(4)], gen.SmallInt, gen.ShapeOpts{CoordFn: c08NoNaN, MaxPts: 3})
+					if c.Guard("panic", func() { swapGeoms(gn.Geom(i), np.BuildFlat()) }) {
+						return
+					}
+					mn.Members[i] = np
+					hist = append(hist, fmt.Sprintf("%s member %d Swap(%s)", path, i, np))
+					c.Count("collection_members_swapped_for_another_layout")
+				}
+			}
+			switch op {
+			case 3:
 			case 0:
 				l := gn.Layout()
 				if r.Chance(1, 4) {
@@ -650,6 +707,26 @@ func c08CollHistory(c *fw.Ctx, idx int) {
 		}
 	}
 	c.Distinct("collhist/" + g.Sig())
+}
+
+// swapGeoms exchanges the values of two geometries of the same type.
+func swapGeoms(a, b geom.T) {
+	switch x := a.(type) {
+	case *geom.Point:
+		x.Swap(b.(*geom.Point))
+	case *geom.LineString:
+		x.Swap(b.(*geom.LineString))
+	case *geom.LinearRing:
+		x.Swap(b.(*geom.LinearRing))
+	case *geom.Polygon:
+		x.Swap(b.(*geom.Polygon))
+	case *geom.MultiPoint:
+		x.Swap(b.(*geom.MultiPoint))
+	case *geom.MultiLineString:
+		x.Swap(b.(*geom.MultiLineString))
+	case *geom.MultiPolygon:
+		x.Swap(b.(*geom.MultiPolygon))
+	}
 }
 
 func init() {
